@@ -46,6 +46,7 @@ def _job(args):
         res['stubs'] = sorted(set().union(*[s.stubs for s in x.stats]))
         res['extract_queries'] = sum(s.queries for s in x.stats)
         res['steps'] = sum(s.steps for s in x.stats)
+        res['bounds_hit'] = sorted(getattr(x, 'bounds_hit', set()))
         static = []
         qm.static_checks(x, static)
         # capacity handed to the channel constructor (C10: "which is never exceeded")
@@ -290,6 +291,7 @@ def run(out, replay_path=None):
             'solver_time_s': round(st, 2), 'functions_encoded': sorted(fns), 'stubs': sorted(stubs_),
             'bounds': {'configs': [r['config'] for r in results],
                        'meaning': 'A = producer actions (emit/clone/drop, symbolic script), D = visible steps, P = wrapped-sink panics, Q = max bounded capacity (1..Q symbolic)',
+                       'bounds_hit': sorted(set(b for r in results for b in r.get('bounds_hit', []))),
                        'outside': 'histories needing more than D steps; > A actions; > P panics; concurrent producers in the quick tier (emit is one channel op + a commuting counter update, see DESIGN)'},
             'vacuity': vac, 'mir': dinfo,
             'samples': [{'worker_and_emit_paths': results[0].get('sample_paths', [])}, {'initial_state_after_build': results[0].get('init')}],
